@@ -264,6 +264,60 @@ def find_path(start, goals, cut_edge=None, cut_node=None, follow_exc=True):
     return None
 
 
+def find_path_cp(graph, start, goals, cut_edge=None, cut_node=None,
+                 follow_exc=False):
+    """Like find_path but path-sensitive for local boolean flags: names
+    assigned a constant are tracked and tests on them prune the infeasible
+    outcome (handles `ok = True ... ok = False ... if not ok:`)."""
+    goals = set(goals)
+    nzl = N.Normaliser()
+
+    def step(edge, state):
+        if not follow_exc and edge.kind == 'exc':
+            return []
+        if cut_edge is not None and cut_edge(edge):
+            return []
+        node = edge.src
+        env = dict(state[1])
+        moved = state[0]
+        if moved and node in goals:
+            return []           # stop at the first goal
+        if moved and cut_node is not None and cut_node(node):
+            return []
+        if node.kind == 'test' and edge.kind in ('true', 'false'):
+            atom = nzl.atom(node.ast)
+            if atom.key[0] == 'truth' and atom.key[1] in env:
+                val = bool(env[atom.key[1]]) == atom.key[2]
+                if val != (edge.kind == 'true'):
+                    return []
+            if atom.key[0] == 'is' and atom.key[2] == 'None' and \
+                    atom.key[1] in env:
+                val = (env[atom.key[1]] is None) == atom.key[3]
+                if val != (edge.kind == 'true'):
+                    return []
+        if node.kind == 'stmt' and isinstance(node.ast, ast.Assign):
+            for tgt in node.ast.targets:
+                for name in ast.walk(tgt):
+                    if isinstance(name, ast.Name):
+                        env.pop(name.id, None)
+            if len(node.ast.targets) == 1 and \
+                    isinstance(node.ast.targets[0], ast.Name) and \
+                    isinstance(node.ast.value, ast.Constant) and \
+                    (node.ast.value.value is None or
+                     isinstance(node.ast.value.value, bool)):
+                env[node.ast.targets[0].id] = node.ast.value.value
+        elif node.kind in ('stmt', 'for', 'with_enter'):
+            for name in N.assigned_targets(node) | N.for_targets(node):
+                env.pop(name, None)
+        return [(True, tuple(sorted(env.items(), key=lambda kv: kv[0])))]
+
+    reached = C.explore(graph, [(False, ())], step, start=start)
+    for (node, state) in reached:
+        if node in goals and state[0]:
+            return C.witness(reached, (node, state))
+    return None
+
+
 _DOM_CACHE = {}
 
 
